@@ -12,7 +12,7 @@ ID = "C14"
 LEVEL = "exploration"
 SHARDS = {"quick": 8, "thorough": 16}
 RULE = (
-    "handler configurations (0-4 handlers over Write / Change / Read, plain or coroutine functions, vetoing or not - also a "
+    "handler configurations (0-4 handlers over Write / Change / Read, plain or coroutine functions (coroutines also as a functools.wraps-decorated async wrapper around a plain function; one function on two event kinds), vetoing or not - also a "
     "coroutine that sets prevent_default, which must have no effect -, attached to one or both elements of a vector, declared on a "
     "base or a derived driver class) x element kind (Text, Number, Switch, Light, BLOB) x vector enabled or not x 1 or 2 instances, each of "
     "the derived or of the base class (the classes share the property definitions) x op sequences (client newXXXVector through the Router, set_value(), direct assignment, reads; values from a "
